@@ -3,7 +3,9 @@
 // C26 driver: server method dispatch (Server.handleStream) through a real
 // grpc.Server and a real grpc.ClientConn over bufconn.
 //
-// cfg = [unk, nsvc, svc...]    unk = 1: an UnknownServiceHandler is installed
+// cfg = [flags, nsvc, svc...]   flags bit 0: an UnknownServiceHandler is installed;
+//                               bit 1: the server is driven through Server.ServeHTTP
+//                               (net/http + h2c handler transport) instead of Server.Serve
 // svc = [name(bytes), ns, n, name_0(bytes) ... name_{n-1}(bytes)]
 //
 //	the first ns names are registered as ServiceDesc.Streams, the others as
@@ -29,11 +31,14 @@ import (
 	"context"
 	"io"
 	"net"
+	"net/http"
 	"strings"
 	"sync"
 	"testing"
 	"time"
 
+	"golang.org/x/net/http2"
+	"golang.org/x/net/http2/h2c"
 	"google.golang.org/grpc"
 	"google.golang.org/grpc/codes"
 	"google.golang.org/grpc/credentials/insecure"
@@ -87,7 +92,7 @@ func vDispatchCfg(cfg []int64) (unk bool, svcs []vDispatchSvc, ok bool) {
 	if len(cfg) < 2 || cfg[1] < 0 {
 		return false, nil, false
 	}
-	unk = cfg[0] != 0
+	unk = cfg[0]&1 != 0
 	n := int(cfg[1])
 	w := cfg[2:]
 	for k := 0; k < n; k++ {
@@ -165,7 +170,13 @@ func vDispatchExec(cfg []int64, ops [][]int64) ([][]int64, bool, []string) {
 		srv.RegisterService(sd, nil)
 	}
 	lis := bufconn.Listen(1 << 16)
-	go srv.Serve(lis)
+	if len(cfg) > 0 && cfg[0]&2 != 0 {
+		hs := &http.Server{Handler: h2c.NewHandler(srv, &http2.Server{})}
+		go hs.Serve(lis)
+		defer hs.Close()
+	} else {
+		go srv.Serve(lis)
+	}
 	defer srv.Stop()
 	cc, err := grpc.NewClient("passthrough:///vdispatch",
 		grpc.WithContextDialer(func(ctx context.Context, _ string) (net.Conn, error) { return lis.DialContext(ctx) }),
@@ -263,6 +274,31 @@ func vDispatchExec(cfg []int64, ops [][]int64) ([][]int64, bool, []string) {
 
 // ---- generation
 
+// the same registry, served through Server.ServeHTTP
+func vDispatchHTTP(cfg []int64) []int64 {
+	cfg[0] |= 2
+	return cfg
+}
+
+// paths with control bytes are not sent to the ServeHTTP server: x/net's http2 server answers
+// an illegal header value with a connection-level error (the client sees UNAVAILABLE and
+// reconnects), which is outside this engine
+func vDispatchNoCtl(ops [][]int64) [][]int64 {
+	var out [][]int64
+	for _, op := range ops {
+		ok := true
+		for _, b := range op[2:] {
+			if b < 0x20 || b == 0x7f {
+				ok = false
+			}
+		}
+		if ok {
+			out = append(out, op)
+		}
+	}
+	return out
+}
+
 func vDispatchEncCfg(unk bool, svcs []vDispatchSvc) []int64 {
 	cfg := []int64{vB(unk), int64(len(svcs))}
 	for _, s := range svcs {
@@ -348,6 +384,21 @@ func vDispatchMutate(r *vRand, p string) string {
 
 func vDispatchGen(r *vRand, tier string, idx int) ([]int64, [][]int64) {
 	var ops [][]int64
+	if idx >= 10 && idx <= 14 {
+		// the exhaustive chunks (no unknown handler) and the shadowing case once more, served
+		// through Server.ServeHTTP
+		cfg, ops := vDispatchGen(r, tier, map[int]int{10: 0, 11: 1, 12: 2, 13: 3, 14: 8}[idx])
+		if idx < 14 && tier == "quick" { // quick tier: paths up to length 4 only
+			var short [][]int64
+			for _, op := range ops {
+				if op[1] <= 4 {
+					short = append(short, op)
+				}
+			}
+			ops = short
+		}
+		return vDispatchHTTP(cfg), vDispatchNoCtl(ops)
+	}
 	switch {
 	case idx < 8:
 		// every string over {/, a, b} up to length 5 (364 paths, in 4 chunks) against a
@@ -380,6 +431,7 @@ func vDispatchGen(r *vRand, tier string, idx int) ([]int64, [][]int64) {
 		}
 		for _, p := range []string{"/S/M", "/S/N", "/S/O", "/S/Q", "/T/M", "/T/", "/p.S/x/M", "/p.S/x", "/p.S", "S/M", "/S", "/S/", "//S/M", "/S//M",
 			"/S/M/", "", "/", "//", "/s/M", "/S/m", "/S/M\xc3\xa9", "/\xc3\xa9/M", " /S/M", "/S/M ",
+			"/S/./M", "/x/../S/M", "/S/M/.", "/./S/M", "/S/N/../M",
 			"/S/M\x00", "/S\x01/M", "\n/S/M", "/S/\tM", "/S/M\x7f", "/S/M\r\n", "/S/\x1fM", "/S/M\x80", "/S/M\xff", "/S/M"} {
 			ops = append(ops, vDispatchOp(p), vDispatchOpS(p))
 		}
@@ -464,9 +516,14 @@ func vDispatchGen(r *vRand, tier string, idx int) ([]int64, [][]int64) {
 		}
 		ops = append(ops, vDispatchOp(p))
 	}
-	return vDispatchEncCfg(unk, svcs), ops
+	cfg := vDispatchEncCfg(unk, svcs)
+	if r.Chance(30) {
+		cfg = vDispatchHTTP(cfg)
+		ops = vDispatchNoCtl(ops)
+	}
+	return cfg, ops
 }
 
 func TestVerif_Dispatch(t *testing.T) {
-	vRunDriver(t, "Dispatch", 40, 800, vDispatchGen, vDispatchExec)
+	vRunDriver(t, "Dispatch", 46, 800, vDispatchGen, vDispatchExec)
 }
